@@ -74,6 +74,41 @@ int main()
             report((std::string("construct<vector,1>/push_back<1,3> on ") + in).c_str(), want, code);
         }
     }
+    {   // the list and the value BOTH behind a leading symbol, and more symbols behind them (their values convert to int as well):
+        // push_back<2,3> in lst('|', lst, d, ';') appends the THIRD value, emplace_back<2,4> in lst('(', lst, ',', d, ')') the fourth
+        parser p(lst, terms(digit_r, '|', ';'), nterms(lst, d),
+                 rules(d(digit_r) >= [](std::string_view sv) { return int(sv[0] - '0'); },
+                       lst() >= create<std::vector<int>>{},
+                       lst('|', lst, d, ';') >= push_back<2, 3>{}));
+        auto r = p.parse(string_buffer("| | | 1 ; 2 ; 3 ;"));
+        long code = -1;
+        if (r.has_value()) { code = 0; for (int x : r.value()) code = code * 10 + x; }
+        report("push_back<2,3> with a leading and a trailing symbol", 123, code);
+        parser q(lst, terms(digit_r, '(', ')', ','), nterms(lst, d),
+                 rules(d(digit_r) >= [](std::string_view sv) { return int(sv[0] - '0'); },
+                       lst() >= create<std::vector<int>>{},
+                       lst('(', lst, ',', d, ')') >= emplace_back<2, 4>{}));
+        auto r2 = q.parse(string_buffer("(((,4),5),6)"));
+        code = -1;
+        if (r2.has_value()) { code = 0; for (int x : r2.value()) code = code * 10 + x; }
+        report("emplace_back<2,4> with a leading and a trailing symbol", 456, code);
+        parser q2(lst, terms(digit_r, '(', ')', ','), nterms(lst, d),
+                  rules(d(digit_r) >= [](std::string_view sv) { return int(sv[0] - '0'); },
+                        lst() >= create<std::vector<int>>{},
+                        lst('(', d, ',', lst, ')') >= push_back<4, 2>{}));
+        auto r3 = q2.parse(string_buffer("(7,(8,(9,)))"));
+        code = -1;
+        if (r3.has_value()) { code = 0; for (int x : r3.value()) code = code * 10 + x; }
+        report("push_back<4,2> with a leading and a trailing symbol", 987, code);
+    }
+    {   // create<T> is a default T WHATEVER the rule's values are - also when there is exactly one and T could be built from it
+        constexpr nterm<int> bit("bit"); constexpr nterm<int> bits("bits");
+        parser p(bits, terms('0', '1'), nterms(bits, bit),
+                 rules(bit('0') >= create<int>{}, bit('1') >= val(1),
+                       bits(bit) >= _e1, bits(bits, bit) >= [](int a, int b) { return a + b; }));
+        auto r = p.parse(string_buffer("0110"));
+        report("create<int> in bit('0')", 2, r.has_value() ? r.value() : -1);
+    }
     {   // emplace_back<3,1>: the element comes first; the innermost list is completed first, so elements arrive right to left
         parser p(lst, terms(digit_r, ','), nterms(lst, d),
                  rules(d(digit_r) >= [](std::string_view sv) { return int(sv[0] - '0'); },
